@@ -34,12 +34,13 @@ def cellNat : Cell → Nat
 /-- `make_definitions`, hybrid stream: no nulls in the page → ONE RLE run `varint(n << 1)`, value byte 1;
     otherwise ONE bit-packed run `varint(len(out) << 1 | 1)` over `convert`'s boolean packing -/
 def writerDefBody (bits : List Nat) : List Nat :=
-  if bits.all (· == 1) then uvarintEnc (bits.length * 2) ++ [1]
-  else uvarintEnc ((writerPackBools bits).length * 2 + 1) ++ writerPackBools bits
+  -- the run headers and the value byte are REGENERATED from `make_definitions` (Gen.WriteLayout)
+  if bits.all (· == 1) then uvarintEnc (PqV.Gen.WriteLayout.defRleHeader bits.length).toNat ++ [PqV.Gen.WriteLayout.defRleValue.toNat]
+  else uvarintEnc (PqV.Gen.WriteLayout.defBpHeader (writerPackBools bits).length).toNat ++ writerPackBools bits
 
 /-- v1 pages prefix the stream with its byte length (`struct.pack('<I', …)`), v2 pages do not -/
 def writerDefBlock (v2 : Bool) (bits : List Nat) : List Nat :=
-  if v2 then writerDefBody bits else leBytes 4 (writerDefBody bits).length ++ writerDefBody bits
+  if v2 then writerDefBody bits else leBytes PqV.Gen.WriteLayout.defPrefixBytes (writerDefBody bits).length ++ writerDefBody bits
 
 /-- `encode_plain` on the null-stripped values: `convert(...).tobytes()` / `pack_byte_array`;
     booleans through `convert`'s own packing (which always pads, a whole byte for a multiple of 8) -/
